@@ -1572,7 +1572,7 @@ theorem stepNode_rename (f : κ → κ') (hf : Injective f) (ff : FF) (t : Table
     | none => rfl
     | some fr =>
       simp only
-      cases st.corrs[fr]? with
+      cases assocGet? st.corrs fr with
       | none => rfl
       | some corr => simp [Except.map, renameSt, renameAssoc]
   · simp only [hin, if_false]
@@ -1683,14 +1683,10 @@ theorem applyOneMod_rename (f : κ → κ') (hf : Injective f) (protein : List S
       applyOneMod protein ff nodes graphs m t := by
   unfold applyOneMod
   simp only [find?_resid_rename]
-  cases ff.mod? t.modName with
+  cases nodes.find? (fun n => decide (n.resid = t.resid)) with
   | none => rfl
-  | some md =>
-    simp only
-    cases nodes.find? (fun n => decide (n.resid = t.resid)) with
-    | none => rfl
-    | some target =>
-      simp only [Option.map_some, renameNode, assocGet?_rename f hf]
+  | some target =>
+    simp only [Option.map_some, renameNode, assocGet?_rename f hf]
 
 theorem applyMods_rename (f : κ → κ') (hf : Injective f) (protein : List String) (ff : FF)
     (nodes : List (ResNode κ)) (graphs : List (κ × List Nat)) (m : Mol) (targets : List ModTarget) :
@@ -1752,56 +1748,21 @@ theorem node?_rename (f : κ → κ') (hf : Injective f) (g : ResGraph κ) (k : 
       simp [Function.comp, renameNode, h, h']
   rw [hp]
 
-theorem dfsLoop_rename (f : κ → κ') (hf : Injective f) (g : ResGraph κ) :
-    ∀ (fuel : Nat) (stack : List (κ × List κ)) (visited : List κ) (out : List (κ × κ)),
-      dfsLoop (renameGraph f g) fuel (stack.map fun pc => (f pc.1, pc.2.map f)) (visited.map f)
-          (out.map (renameEdge f)) =
-        ((dfsLoop g fuel stack visited out).1.map f, (dfsLoop g fuel stack visited out).2.map (renameEdge f)) := by
-  intro fuel
-  induction fuel with
-  | zero => intro stack visited out; rfl
-  | succ n ih =>
-    intro stack visited out
-    cases stack with
-    | nil => rfl
-    | cons top rest =>
-      obtain ⟨p, cs⟩ := top
-      cases cs with
-      | nil =>
-        simp only [List.map_cons, List.map_nil, dfsLoop]
-        exact ih rest visited out
-      | cons c cs' =>
-        simp only [List.map_cons, dfsLoop, mem_map_inj f hf]
-        by_cases hc : c ∈ visited
-        · simp only [hc, if_true]
-          exact ih ((p, cs') :: rest) visited out
-        · simp only [hc, if_false]
-          have := ih ((c, g.neighbors c) :: (p, cs') :: rest) (c :: visited) (out ++ [(p, c)])
-          simp only [List.map_cons, List.map_append, List.map_nil, renameEdge, neighbors_rename f hf] at this ⊢
-          exact this
-
-theorem dfsFuel_rename (f : κ → κ') (g : ResGraph κ) :
-    2 * (((renameGraph f g).adj.map (fun kv => kv.2.length + 1)).foldl (· + ·) 0) + 2 * (renameGraph f g).nodes.length + 4 =
-    2 * ((g.adj.map (fun kv => kv.2.length + 1)).foldl (· + ·) 0) + 2 * g.nodes.length + 4 := by
-  simp [renameGraph, List.map_map, Function.comp_def]
-
-theorem dfsEdges_rename (f : κ → κ') (hf : Injective f) (g : ResGraph κ) :
-    dfsEdges (renameGraph f g) = (dfsEdges g).map (renameEdge f) := by
-  unfold dfsEdges
-  rw [dfsFuel_rename]
-  generalize 2 * ((g.adj.map (fun kv => kv.2.length + 1)).foldl (· + ·) 0) + 2 * g.nodes.length + 4 = fuel
-  -- generalise the accumulator of the fold over the start nodes
+theorem graphEdges_rename (f : κ → κ') (hf : Injective f) (g : ResGraph κ) :
+    graphEdges (renameGraph f g) = (graphEdges g).map (renameEdge f) := by
+  unfold graphEdges
   have key : ∀ (nodes : List (ResNode κ)) (acc : List κ × List (κ × κ)),
       (nodes.map (renameNode f)).foldl (fun (acc : List κ' × List (κ' × κ')) n =>
-          if n.key ∈ acc.1 then acc
-          else dfsLoop (renameGraph f g) fuel [(n.key, (renameGraph f g).neighbors n.key)] (n.key :: acc.1) acc.2)
+          (n.key :: acc.1,
+           acc.2 ++ (((renameGraph f g).neighbors n.key).filter (fun v => v ∉ acc.1)).map (fun v => (n.key, v))))
         (acc.1.map f, acc.2.map (renameEdge f)) =
       (((nodes.foldl (fun (acc : List κ × List (κ × κ)) n =>
-          if n.key ∈ acc.1 then acc
-          else dfsLoop g fuel [(n.key, g.neighbors n.key)] (n.key :: acc.1) acc.2) acc).1).map f,
+          (n.key :: acc.1,
+           acc.2 ++ ((g.neighbors n.key).filter (fun v => v ∉ acc.1)).map (fun v => (n.key, v)))) acc).1).map f,
        ((nodes.foldl (fun (acc : List κ × List (κ × κ)) n =>
-          if n.key ∈ acc.1 then acc
-          else dfsLoop g fuel [(n.key, g.neighbors n.key)] (n.key :: acc.1) acc.2) acc).2).map (renameEdge f)) := by
+          (n.key :: acc.1,
+           acc.2 ++ ((g.neighbors n.key).filter (fun v => v ∉ acc.1)).map (fun v => (n.key, v)))) acc).2).map
+          (renameEdge f)) := by
     intro nodes
     induction nodes with
     | nil => intro acc; rfl
@@ -1809,15 +1770,21 @@ theorem dfsEdges_rename (f : κ → κ') (hf : Injective f) (g : ResGraph κ) :
       intro acc
       simp only [List.map_cons, List.foldl_cons]
       have hkey : (renameNode f n).key = f n.key := rfl
-      simp only [hkey, mem_map_inj f hf]
-      by_cases hin : n.key ∈ acc.1
-      · simp only [hin, if_true]
-        exact ih acc
-      · simp only [hin, if_false]
-        have hd := dfsLoop_rename f hf g fuel [(n.key, g.neighbors n.key)] (n.key :: acc.1) acc.2
-        simp only [List.map_cons, List.map_nil, neighbors_rename f hf] at hd ⊢
-        rw [hd]
-        exact ih _
+      have hstep : (f n.key :: acc.1.map f,
+            acc.2.map (renameEdge f) ++
+              (((renameGraph f g).neighbors (f n.key)).filter (fun v => v ∉ acc.1.map f)).map (fun v => (f n.key, v))) =
+          ((n.key :: acc.1).map f,
+            (acc.2 ++ ((g.neighbors n.key).filter (fun v => v ∉ acc.1)).map (fun v => (n.key, v))).map (renameEdge f)) := by
+        rw [neighbors_rename f hf]
+        simp only [List.map_cons, List.map_append, List.filter_map, List.map_map]
+        congr 2
+        have hp : ((fun v => decide (v ∉ acc.1.map f)) ∘ f) = fun v => decide (v ∉ acc.1) := by
+          funext v
+          simp only [Function.comp, mem_map_inj f hf]
+        rw [hp]
+        rfl
+      rw [hkey, hstep]
+      exact ih _
   have := key g.nodes ([], [])
   simp only [List.map_nil] at this
   simp only [renameGraph] at this ⊢
@@ -1838,8 +1805,8 @@ theorem classify_rename (f : κ → κ') (hf : Injective f) (g : ResGraph κ) (i
     classify (renameGraph f g) (init.map f) =
       ((classify g init).1.map f, (classify g init).2.map (renameEdge f)) := by
   unfold classify
-  rw [dfsEdges_rename f hf]
-  generalize dfsEdges g = edges
+  rw [graphEdges_rename f hf]
+  generalize graphEdges g = edges
   have key : ∀ (edges : List (κ × κ)) (acc : List κ × List (κ × κ)),
       (edges.map (renameEdge f)).foldl (fun (acc : List κ' × List (κ' × κ')) e =>
           match ((renameGraph f g).node? e.1).bind (·.fromItp), ((renameGraph f g).node? e.2).bind (·.fromItp) with
